@@ -142,6 +142,23 @@ def memo_case():
         leaf({"A": 1})
         if runs["n"] != 1 or runs["eff"] != 1:
             msgs.append(f"body returning {ret!r}: ran {runs['n']} times / effect {runs['eff']} times over repeats with the same relevant options")
+    # options fixed by pre-set values (scalar, list or None) do not split cache entries of a consumer
+    for preset in (2, [1, 2], None, "x"):
+        runs = {"n": 0}
+
+        @dataset(options={"P": preset})
+        def pinned(p=Option("P"), a=Option("A")):
+            return (p, a)
+
+        @dataset
+        def report(x=pinned):
+            runs["n"] += 1
+            return x
+        report({"A": 1})
+        report({"A": 1, "P": "caller-1"})
+        report({"A": 1, "P": ["caller-2"]})
+        if runs["n"] != 1:
+            msgs.append(f"consumer of a dataset with pre-set P={preset!r} ran {runs['n']} times although only the overridden option P changed")
     return msgs
 
 
